@@ -34,3 +34,68 @@ def exact_minnorm(Y):
             if all(dot(x,y)>=n2 for y in Y):
                 return x,n2,t
     return None
+
+
+def minnorm_weights(Y):
+    """exact minimiser of |sum lam_i Y_i| over the simplex: returns (x, lam) with lam a full-length list of Fractions"""
+    Yf = [[F(c) for c in p] for p in Y]
+    for k in range(1, min(4, len(Yf)) + 1):
+        for t in itertools.combinations(range(len(Yf)), k):
+            P = [Yf[i] for i in t]
+            if k == 1:
+                lam = [F(1)]
+            else:
+                E = [sub(p, P[0]) for p in P[1:]]
+                if k == 4:
+                    M = [[E[j][i] for j in range(3)] for i in range(3)]
+                    r = [-P[0][i] for i in range(3)]
+                else:
+                    M = [[dot(a, b) for b in E] for a in E]
+                    r = [-dot(a, P[0]) for a in E]
+                mu = solve(M, r)
+                if mu is None:
+                    continue
+                lam = [1 - sum(mu)] + mu
+            if min(lam) < 0:
+                continue
+            x = [sum(l * p[c] for l, p in zip(lam, P)) for c in range(3)]
+            n2 = dot(x, x)
+            if all(dot(x, y) >= n2 for y in Yf):
+                full = [F(0)] * len(Yf)
+                for l, i in zip(lam, t):
+                    full[i] = l
+                return x, full
+    raise ArithmeticError("no minimiser found")
+
+
+def exact_gjk(VA, VB):
+    """exact closest points of conv(VA) and conv(VB) (integer or Fraction vertices) by GJK in rational
+    arithmetic.  Returns (xn, W, wa, wb): integer vector xn = W (a* - b*), integer weights over VA / VB with sum W."""
+    from math import gcd
+    A = [[F(c) for c in p] for p in VA]
+    B = [[F(c) for c in p] for p in VB]
+    S = [(0, 0)]
+    for _ in range(200):
+        Y = [sub(A[i], B[j]) for i, j in S]
+        x, lam = minnorm_weights(Y)
+        S = [S[k] for k in range(len(S)) if lam[k] > 0]
+        lam = [l for l in lam if l > 0]
+        xx = dot(x, x)
+        if xx == 0:
+            break
+        i = min(range(len(A)), key=lambda i: dot(x, A[i]))
+        j = max(range(len(B)), key=lambda j: dot(x, B[j]))
+        if dot(x, sub(A[i], B[j])) >= xx or (i, j) in S:
+            break
+        S.append((i, j))
+    else:
+        raise ArithmeticError("exact GJK did not terminate")
+    W = 1
+    for l in lam:
+        W = W * l.denominator // gcd(W, l.denominator)
+    wa, wb = [0] * len(A), [0] * len(B)
+    for (i, j), l in zip(S, lam):
+        wa[i] += int(l * W)
+        wb[j] += int(l * W)
+    xn = [int(c * W) for c in x]
+    return xn, W, wa, wb
